@@ -170,7 +170,8 @@ Definition exec (i : nat) (s : qst) (q : qinstr) : qst * qres * ntrace :=
               let p := fresh_id (h_used h) in
               let h1 := with_units (with_used h (insert_sorted p (h_used h))) (aset app (upd um a (Some p)) (h_units h)) in
               let '(s2, ok, tr) := cmd_new i (mkQ (q_net s) h1) (PP p) in
-              (s2, if ok then RDone None else RErr, tr)                      (* refused: the address stays mapped (D16) *)
+              (* refused by the virtual node: the allocation is rolled back (since the D16 repair) *)
+              if ok then (s2, RDone None, tr) else (mkQ (q_net s2) h, RErr, tr)
           end
       end
   | QG1 app a g =>
